@@ -446,6 +446,22 @@ pub fn families_opt(tier: Tier, _variant: &str, mode: Mode, with_viable: bool) -
         }
     }
     {
+        // every \uXXXX escape as the last thing before the closing quote, the quote being the last
+        // byte of the input (and, second framing, followed by whitespace); also after a plain byte
+        // and as a key
+        let d = dc(f2);
+        v.push(Family::new("all-u-escapes/at-end-of-input", 65536, move |x, ctx| {
+            for up in [false, true] {
+                let e = if up { format!("\\u{:04X}", x) } else { format!("\\u{:04x}", x) };
+                check_doc(ctx, format!("\"{e}\"").as_bytes(), &d);
+                if !up {
+                    check_doc(ctx, format!("\"x{e}\"").as_bytes(), &d);
+                    check_doc(ctx, format!("{{\"{e}\":\"{e}\"}}").as_bytes(), &d);
+                }
+            }
+        }));
+    }
+    {
         let d = dc(f2);
         let mut docs: Vec<Vec<u8>> = gen::number_shape_docs().into_iter().map(|s| s.into_bytes()).collect();
         for e in gen::SPACED_EMPTIES {
